@@ -8,7 +8,9 @@ export GOFLAGS=-mod=mod GOPROXY=off GOSUMDB=off GOTOOLCHAIN=local GOWORK=off
 W=$(mktemp -d /tmp/sv.XXXXXX)
 cleanup() { git -C /repo worktree remove --force "$W/wt" >/dev/null 2>&1; rm -rf "$W"; }
 trap cleanup EXIT
-git -C /repo worktree add -f --detach "$W/wt" HEAD >/dev/null 2>&1 || { echo "VERIFY worktree failed"; exit 3; }
+# a seed that no longer applies to HEAD is verified on the commit it was written for (side file `base`)
+BASE=HEAD; [ -f "$(dirname "$PATCH")/base" ] && BASE=$(cat "$(dirname "$PATCH")/base")
+git -C /repo worktree add -f --detach "$W/wt" "$BASE" >/dev/null 2>&1 || { echo "VERIFY worktree failed"; exit 3; }
 cp -r "$DEMO" "$W/demo"; rm -f "$W/demo"/out.*.txt
 sed -i -E "s|(github.com/elastic/go-ucfg) => /[^ ]+|\1 => $W/wt|" "$W/demo/go.mod"
 ( cd "$W/demo" && timeout 300 go run . >"$W/orig.out" 2>&1 ); O=$?
